@@ -9,6 +9,7 @@ stdin  {"cases": [{"kind":"aux","entry":str,"dir":"plain|symlink|rel|symrel","fa
 stdout last line: [{"ok":bool,"globals":[bool..],"args_same":bool,"exc":str}]
 """
 import argparse
+import io
 import json
 import os
 import shutil
@@ -60,16 +61,18 @@ def place(work, kind, name, text):
 
 
 def untyped(p):
-    """arguments without a type: an optional, a positional and a list-valued positional"""
+    """arguments without a type: an optional, an optional positional, and two required positionals (whose help line
+    gets no `(default: %(default)s)` template)"""
     p.add_argument("--u", default="declared")
-    p.add_argument("source", nargs="?", help="where from")
-    p.add_argument("rest", nargs="*")
+    p.add_argument("maybe", nargs="?", help="optional positional")
+    p.add_argument("source", help="where from")
+    p.add_argument("targets", nargs="+", help="where to")
 
 
-def declared(p):
+def declared(p, dests=None):
     """the declared defaults as the parser holds them: value, type and identity of action.default per action, plus what
     get_defaults() says once the default config files are taken away"""
-    acts = [(a.dest, id(a.default), repr(a.default)) for a in p._actions]
+    acts = [(a.dest, id(a.default), repr(a.default)) for a in p._actions if dests is None or id(a) in dests]
     saved = p.default_config_files
     p.default_config_files = []
     try:
@@ -86,7 +89,7 @@ def run(case, base, idx):
     os.makedirs(work)
     entry, kind, fail = case["entry"], case["dir"], case["fail"]
     # the file also sets the untyped arguments (no type => no %-template in their help line)
-    bad = ("a: notanint\n" if fail else "a: 5\n") + "u: fromfile\nsource: fromfile\n"
+    bad = ("a: notanint\n" if fail else "a: 5\n") + "u: fromfile\nmaybe: fromfile\nsource: fromfile\ntargets: [t1, t2]\n"
     arg, snap, call = None, None, None
     if entry == "args_cfg":
         p = ArgumentParser(exit_on_error=False)
@@ -96,14 +99,15 @@ def run(case, base, idx):
         untyped(p)
         arg = ["--l", "[2, 3]", "--cfg", place(work, kind, "c.yaml", bad), "--a", "7"]
         call = lambda: p.parse_args(arg)
-    elif entry in ("dflt_get_defaults", "dflt_help", "dflt_parse_args"):
+    elif entry in ("dflt_get_defaults", "dflt_help", "dflt_parse_args", "dflt_print_help"):
         f = place(work, kind, "d.yaml", bad)
         p = ArgumentParser(exit_on_error=False, default_config_files=[f])
         p.add_argument("--a", type=int, default=1)
         p.add_argument("--d", type=Dict[str, int], default={"k": 1})
         untyped(p)
         arg = []
-        call = {"dflt_get_defaults": p.get_defaults, "dflt_help": p.format_help, "dflt_parse_args": lambda: p.parse_args(arg)}[entry]
+        call = {"dflt_get_defaults": p.get_defaults, "dflt_help": p.format_help, "dflt_parse_args": lambda: p.parse_args(arg),
+                "dflt_print_help": lambda: p.print_help(io.StringIO())}[entry]
     elif entry == "list_file":
         p = ArgumentParser(exit_on_error=False)
         p.add_argument("--l", type=List[int], enable_path=True)
@@ -118,6 +122,7 @@ def run(case, base, idx):
     else:
         raise SystemExit("unknown entry " + entry)
     snap = json.dumps(arg, sort_keys=True)
+    known = {id(a) for a in p._actions}   # parse_args may add helper actions lazily; they are not declarations
     d_before = declared(p)
     g_before = read_globals()
     ok, exc = True, ""
@@ -134,7 +139,7 @@ def run(case, base, idx):
     except OSError:
         pass
     argparse.Namespace = ORIG_ARGPARSE_NS
-    d_after = declared(p)
+    d_after = declared(p, known)
     shutil.rmtree(work, ignore_errors=True)
     return {"ok": ok, "globals": gl, "args_same": json.dumps(arg, sort_keys=True) == snap, "defaults_same": d_before == d_after,
             "exc": exc}
